@@ -15,7 +15,7 @@ CHECKS = {
    note="step counter hook counts lexer tokens and opened nodes; 256 MiB worker stacks (the server's 2 MiB stacks are not asserted); nesting > 256 skipped as documented non-goal",
    technique="property-based testing / fuzzing with a deterministic step-budget hook"),
  "C10": dict(cat="exploration", design="§5 C10",
-   text="Differential against an independent reference position mapper (RefPos, from the LSP spec) on every string of length <=6 (thorough <=7) over a 9-symbol alphabet chosen to hit every encoding class and every line-break confusion (exhaustive), x every char-boundary offset and every (line, column) up to one past the extremes, plus long random texts and real files in LF/CRLF form.",
+   text="Differential against an independent reference position mapper (RefPos, from the LSP spec) on every string of length <=6 (thorough <=7) over a 9-symbol alphabet chosen to hit every encoding class and every line-break confusion (exhaustive), x every char-boundary offset and every (line, column) up to one past the extremes, plus an exhaustive family of code points at the edges of every UTF-8/UTF-16 length class and one per UTF-8 lead byte, long random texts over arbitrary scalar values, and real files in LF/CRLF form.",
    note="RefPos is the trusted reference; offsets strictly inside a CRLF pair are exempt from the round-trip clause, columns inside a surrogate pair and lines past the end are unspecified and skipped",
    technique="exhaustive small-scope enumeration + random texts against a reference model (differential)"),
  "C14": dict(cat="exploration", design="§5 C14",
@@ -43,11 +43,11 @@ CHECKS = {
    note="every edit is followed by set_root_file; hash-ordered result lists are compared sorted; FileIds are normalised to paths",
    technique="stateful property-based testing: history generation with a from-scratch differential oracle"),
  "C16": dict(cat="exploration", design="§5 C16",
-   text="Exhaustive enumeration of every include graph (all edge sets incl. self-loops) over <=3 files (thorough: <=4 files, 65536 graphs) x 6 variants (missing target, INCLUDE_DIR-only target, directory-vs-INCLUDE_DIR choice, doubled include statements, includes nested in a block), checked against a reference reachability/resolution model: termination via traversal budget, exact workspace, exact document links, diagnostics only on unresolvable includes, single indexing, references across all includers.",
+   text="Exhaustive enumeration of every include graph (all edge sets incl. self-loops) over <=3 files (thorough: <=4 files, 65536 graphs) x 7 variants (missing includes in every file, INCLUDE_DIR-only target, directory-vs-INCLUDE_DIR choice, doubled include statements, includes nested in let/foreach/if/multiclass blocks, two directories with same-named files), checked against a reference reachability/resolution model: termination via traversal budget, exact workspace, exact document links, diagnostics only on unresolvable includes, single indexing, references across all includers.",
    note="traversal-budget hook in collect_sources / Include::index; search order taken from the documentation",
    technique="exhaustive small-scope enumeration of configurations against a reference model"),
  "C20": dict(cat="exploration", design="§5 C20",
-   text="Exhaustive over the finite completion vocabularies in the four contexts x the lexer's tables (acceptance decided by running the server's lexer/parser, candidates harvested from lexer.rs and the reference operator list); class completion on generated multi-file workspaces (template parameters of seven types with type-correct defaults of several shapes, redeclarations) at every parent-class position with 0..3 typed characters.",
+   text="Exhaustive over the finite completion vocabularies in the four contexts x the lexer's tables (acceptance decided by running the server's lexer/parser, candidates harvested from lexer.rs and the reference operator list; every accepted operator must be offered after '!' in four contexts, one with the '!' directly in front of an operator name); class completion on generated multi-file workspaces (template parameters of seven types with type-correct defaults of several shapes, redeclarations) at every parent-class position with 0..3 typed characters, and at a parent-class position appended to generated (SEM) programs.",
    note="eight vocabulary mismatches are pinned by a snapshot test and listed as known findings (exact spelling signatures)",
    technique="exhaustive enumeration of vocabularies + property-based testing of class completion"),
  "C05": dict(cat="exploration", design="§5 C05",
@@ -63,15 +63,15 @@ CHECKS = {
    note="outline entries of defs inside multiclass bodies and of defs named by a paste expression are not asserted",
    technique="property-based testing with a by-construction oracle"),
  "C19": dict(cat="exploration", design="§5 C19",
-   text="Hover (signature content, doc-comment extraction, use = declaration) at every identifier occurrence and inlay hints (exact set over the whole file; subset and in-range for every statement range, every class-name-only range and random ranges) against expectations recorded by the SEM generator; 25000 programs per quick run (a quarter in CRLF form).",
+   text="Hover (signature content, doc-comment extraction, use = declaration; on field overrides and uses of overridden fields the documentation of the declaration go-to-definition points at) at every identifier occurrence and inlay hints (exact set over the whole file; subset and in-range for every statement range, every class-name-only range and random ranges) against expectations recorded by the SEM generator; 25000 programs per quick run (a quarter in CRLF form).",
    note="label/signature formatting matched by containment; hints of multiclass references not asserted; fields overridden by let are exempt from the use=declaration clause",
    technique="property-based testing with a by-construction oracle"),
  "C08": dict(cat="exploration", design="§5 C08",
-   text="The real Server runs in-process; a controlled scheduler built on schedule-point hooks (handlers, set_file_content, snapshot tasks, vfs reads) enumerates, per scenario (5 handlers - change root, change included, open included, re-send identical text, close root - x {no request, each of the 8 request kinds; thorough: every pair of request kinds}, with the previous notification's diagnostics task alive), every interleaving with at most 1 preemption (thorough: 3) by stateless DFS; blocked threads are recognised from /proc (sleeping, unchanged context-switch counters), a deadlock is reported when no actor can be released while some are blocked. Plus uncontrolled bursts (all 'change, request' pairs and random operation lists on documents of 1..300 classes) where a missing answer counts only with all-threads-blocked evidence.",
+   text="The real Server runs in-process; a controlled scheduler built on schedule-point hooks (handlers, set_file_content, snapshot tasks, vfs reads) enumerates, per scenario (5 handlers - change root, change included, open included, re-send identical text, close root - x {no request, each of the 8 request kinds; thorough: every pair of request kinds}, with the previous notification's diagnostics task alive), every interleaving with at most 1 preemption (thorough: 3) by stateless DFS; blocked threads are recognised from /proc (sleeping, unchanged context-switch counters), a deadlock is reported when no actor can be released while some are blocked. Plus uncontrolled bursts (all 'change, request' pairs, workspace-switch sequences over documents that carry diagnostics, a third document and a root that drops its include, wide-workspace sequences - 40/300 includes, 200/3000 uses, the next edit sent the moment publishing starts - and random operation lists on documents of 1..300 classes) where a missing answer counts only with all-threads-blocked evidence.",
    note="liveness = completes under every enumerated schedule of these bounded scenarios at hook granularity; preemption-bounded, not all interleavings; OS pre-emption inside lock implementations is not controlled; timeouts without blocked-thread evidence are inconclusive",
    technique="schedule enumeration (stateless DFS, preemption-bounded) with a controlled scheduler + randomized stress"),
  "C09": dict(cat="exploration", design="§5 C09",
-   text="2000 generated multi-file sessions per quick run against the real server with per-file line structure (pushed-down headers, CRLF, non-ASCII): every range/location in definition, references, documentSymbol, foldingRange, documentLink, inlayHint answers and in published diagnostics is compared with the ide-level result converted by the independent reference position mapper against the text of the file it names; each session then sends a second revision of the root with the same bytes and moved line breaks and compares what the client holds again.",
+   text="2000 generated multi-file sessions per quick run against the real server with per-file line structure (pushed-down headers, LF/CRLF/mixed line endings, byte order marks, non-ASCII incl. the edges of the UTF-8 length classes): every range/location in definition, references, documentSymbol, foldingRange, documentLink, inlayHint answers and in published diagnostics is compared with the ide-level result converted by the independent reference position mapper against the text of the file it names; each session then sends a second revision of the root with the same bytes and moved line breaks and compares what the client holds again; then the first header is opened, edited and queried as an open included document (diagnostics, outline, definition, references, hints). Independently of the ide-level oracle every definition range must spell the identifier asked about.",
    note="isolates server.rs/to_proto.rs/from_proto.rs: a wrong range computed by the ide layer appears on both sides",
    technique="property-based testing: differential between the server's JSON and an ide-level oracle through a reference position mapper"),
  "C11": dict(cat="exploration", design="§5 C11",
